@@ -19,6 +19,14 @@ TECH = {
             "pinned layout/tree tables are regression oracles audited against independent anchors; 1-3 lines; order asserted by a concrete twin"),
     "C04": ("z3 LIA: 956 leader fields vs pinned linear offsets for all structure parameters; CrossHair/z3 on the ASCII adapters for all strings up to the bound and on the real leader transformers with ~480 symbolic field values x 7 structure variants",
             "int()/float() uninterpreted; pinned tables are regression oracles with 16 independent CEOS anchors"),
+    "C12": ("CrossHair/z3 on LazilyIndexedWrapper/Array (declared dtype and shape for symbolic header shapes, empty selections) and on the real transformers with symbolic field values followed by a type-discipline walk; concrete witness replays through open_alos2",
+            "structure variants enumerated; xarray's list->array conversion trusted"),
+    "C13": ("CrossHair/z3 symbolic execution of io.open/open_alos2 wiring (symbolic options, enumerated image orders), group naming, file roles, record-group presence and coordinate decoding",
+            "sub-openers are recording stand-ins in the assembly obligation; DataTree.from_dict/set_coords trusted"),
+    "C14": ("z3 over a bounded priority matcher executing the compiled entry_re (captures under Python's backtracking order) vs an independent grammar; CrossHair/z3 on parse_summary with a symbolic validity oracle and on the section transformers with symbolic texts",
+            "lines up to 16/24 code points; int()/float() uninterpreted; splitlines trusted"),
+    "C19": ("z3 search over all interleavings of recorded event programs (file handles, locks, shared-attribute accesses) of 2-3 real loads for a hazardous schedule; replay with real threads gated in the solver's order",
+            "event programs recorded sequentially from the real code on an instrumented filesystem; programs assumed schedule-independent"),
     "C16": ("z3 LIA on the live volume-directory layout for every file-pointer count; CrossHair/z3 on PaddedString and on the real volume transformers with symbolic texts",
             "pinned layout; strings bounded; timestamp format shared with C17"),
     "C20": ("CrossHair/z3 on the blank-field adapters and header attributes; sentinel flow = plumbing obligations for all integer values; z3 tiling proof + pinned-table check that spare areas never reach the tree; remove_spares on symbolic keys",
